@@ -153,3 +153,18 @@ Theorem C04_pnpm_workspace :
   exists pkgs, walk_pnpm content root = Some pkgs /\ map YamlWalkProofs.nv pkgs = declared_pnpm v.
 Proof. exact pnpm_exact. Qed.
 Print Assumptions C04_pnpm_workspace.
+
+(* GitHub Actions workflows and composite actions: for every document whose tree denotes a YAML value v, of the
+   documented shape (gha_regular: the only keys named "steps" are jobs.<id>.steps and runs.steps, their values are
+   sequences of step mappings, and a step's only "uses" key is its own, with a scalar value) and outside the known
+   classes (gha_known: a mapping / sequence on the way to a step written in flow style; a local or docker action whose
+   text contains '@'), whatever the walk returns is exactly the list of (owner/repo, ref) of the steps' uses: entries,
+   in document order (for a hash-pinned step the ref is the hash; the version shown comes from the comment, see C17).
+   Stated for the results the walk returns: that it returns (does not panic) on such trees is C06's totality theorem. *)
+From VL Require Import Proofs.GhaWalkProofs.
+Theorem C04_github_actions :
+  forall content root v,
+  denote_yaml content root = Some v -> gha_regular v = true -> gha_known v = false ->
+  forall pkgs, walk_gha content root = Some pkgs -> map nh pkgs = declared_gha v.
+Proof. exact gha_exact. Qed.
+Print Assumptions C04_github_actions.
